@@ -179,9 +179,17 @@ def pools(app) -> dict:
             for p in x.periods:
                 pfiles[p.pk] = sorted(mf.name for mf in p.stream.media_files)
         users = sorted(u.username for u in m.User.all())
+        reps = {}
+        for mf in m.MediaFile.all():
+            r = mf.representation
+            if r is None:
+                continue
+            reps[mf.name] = {"stream": mf.stream.directory, "sn": r.start_number, "n": r.num_media_segments,
+                             "sd": r.segment_duration, "ts": r.timescale,
+                             "durs": [seg.duration for seg in r.segments[1:]], "content_type": mf.content_type}
     from dashlive.server.manifests import manifest_map
     return {"streams": streams, "spks": spks, "mfs": mfs, "mfids": mfids, "mfid_of": mfid_of, "kpks": kpks,
-            "mps": mps, "ppks": ppks, "pfiles": pfiles, "users": users,
+            "mps": mps, "ppks": ppks, "pfiles": pfiles, "users": users, "reps": reps,
             "manifests": sorted(manifest_map.keys())}
 
 
@@ -229,6 +237,13 @@ def fill_rule(rule, P: dict, rng, valid: bool) -> str | None:
                 args[name] = "nosuch" if bad() else rng.choice(files)
         elif name == "ext":
             args[name] = rng.choice(["mp4", "m4v", "m4a", "m4s"])
+        elif name == "segment_num" and args.get("filename") in P.get("reps", {}) and rng.random() < .7:
+            # boundary pool derived from the stream: first-1, first, last, last+1, last+2, 0, start_number-1
+            args[name] = rng.choice(number_boundaries(P["reps"][args["filename"]]))
+            if c == "RegexConverter":
+                args[name] = str(args[name])
+        elif name == "segment_time" and args.get("filename") in P.get("reps", {}) and rng.random() < .7:
+            args[name] = rng.choice(time_boundaries(P["reps"][args["filename"]]))
         elif name == "segment_num":
             if c == "RegexConverter":
                 args[name] = rng.choice(["init", "init", "1", "2", "3", "0", "99999999", str(10 ** 25)])
@@ -274,6 +289,30 @@ def fill_rule(rule, P: dict, rng, valid: bool) -> str | None:
     if adapter_path is None:
         return None
     return adapter_path[1]
+
+
+def number_boundaries(rep: dict) -> list:
+    """segment numbers around the ends of the stored media (VOD: first = start_number,
+    last = start_number + n - 1)"""
+    sn, n = rep["sn"], rep["n"]
+    vals = {0, 1, sn - 1, sn, sn + 1, sn + n - 2, sn + n - 1, sn + n, sn + n + 1, 2 * (sn + n)}
+    return sorted(v for v in vals if v >= 0)
+
+
+def time_boundaries(rep: dict) -> list:
+    """times (ticks): 0, the start of the boundary segments and one tick either side, the media
+    duration, one whole segment past the end"""
+    starts, t = [], 0
+    for d in rep["durs"]:
+        starts.append(t)
+        t += d
+    total = t
+    sd = rep["sd"]
+    vals = {0, 1, total - 1, total, total + 1, total + sd, rep["n"] * sd, rep["n"] * sd - 1, (rep["n"] + 1) * sd,
+            total - sd // 4, total - sd // 4 - 1, rep["n"] * sd - sd // 4, rep["n"] * sd - sd // 4 - 1}
+    for st in starts[:2] + starts[-2:]:
+        vals.update({st - 1, st, st + 1})
+    return sorted(v for v in vals if v >= 0)
 
 
 def get_rules(app) -> list:
@@ -334,12 +373,13 @@ def option_value_pool() -> dict:
 
 # values every codec kind accepts (the request then reaches the code behind the
 # option layer); keyed by the Lean `Kind` term gen_options assigns
-DATES = ["epoch", "now", "today", "month", "year", "2024-03-05T10:00:00Z", "2024-03-05T10:20:30Z",
+DATES = ["0100-01-01T00:00:00Z", "1000-06-01T00:00:00Z", "1479-01-01T00:00:00Z", "epoch", "now", "today", "month", "year", "2024-03-05T10:00:00Z", "2024-03-05T10:20:30Z",
          "2024-03-05T10:20:31Z", "2024-03-05T10:20:29.999Z", "2030-01-01T00:00:00Z", "1969-12-31T23:59:59Z",
          "0001-01-01T00:00:00Z", "9999-12-31T23:59:59Z", "2024-03-05T10:20:30", "2024-03-05T10:20:30+05:30",
          "2024-03-05T10:20:30-23:59", "2024-03-05", "05/03/2024", "2024-03-05T00:00:00Z", "2024-01-01T00:00:00Z",
          "1970-01-01T00:00:00Z", "2024-03-04T10:20:30Z", ""]
-ERRSPECS = ["404=1", "503=2", "503=1,503=2", "404=1,503=1", "503=0", "503=-1", "410=3,504=4", "99=1", "0=1", "-1=1",
+ERRSPECS = ["503=2023-05-01T12:00:00+99:00", "404=2024-03-05T10:20:30-24:00", "503=2024-03-05T10:20:30+23:59",
+            "503=0100-01-01T00:00:00Z", "404=1", "503=2", "503=1,503=2", "404=1,503=1", "503=0", "503=-1", "410=3,504=4", "99=1", "0=1", "-1=1",
             "600=1", "99999=1", "200=1", "204=1", "304=1", "100=1", "503=99999999999999999999", "503=10:20:30Z",
             "503=10:20:28Z", "503=2024-03-05T10:20:30Z", "503=2024-03-05T10:20:00Z,404=2", "404=2024-03-05",
             "503=10:20:30Z,503=10:20:34Z", "none", "", "503=1,none=2"]
@@ -375,7 +415,7 @@ def option_kinds() -> dict:
 
 # very long values and strings that look like format templates, for every string-typed option
 LONG_SIZES = [1024, 4096, 4097, 32700, 65535 - 8, 65536 + 8, 1 << 20]
-FORMAT_STRINGS = ["{foo}", "{", "}", "{0}", "{}", "{cfgs}", "{cfgs.x}", "{kids[9]}", "{default_kid!r}",
+FORMAT_STRINGS = ["{cfgs}" * 680, "{default_kid}" * 127, "{kids}" * 600, "{cfgs}" * 20000, "{foo}", "{", "}", "{0}", "{}", "{cfgs}", "{cfgs.x}", "{kids[9]}", "{default_kid!r}",
                   "{default_kid:>999999999}", "{:>99999999999}", "%s%s%s%n", "%(x)s", "${x}", "#{x}", "{{", "}}"]
 STRING_KINDS = (".strOrNone", ".strRaw", ".quotedUrl", ".listJoin")
 
